@@ -79,7 +79,10 @@ def check_outputs(rep, run_id, outs, events, wd, seed, orders=3, shape_of=None):
     shape_of: optional map from a generated file's name to the program shape it was generated from (part of the key)."""
     rng = random.Random(seed)
     def report(backend, tool, results):
+        bad = set()
         for f, ok, err in results:
+            if not ok:
+                bad.add(f)
             events.append({"ev": "Build", "run": "%s|%s" % (run_id, backend), "file": os.path.basename(f), "tool": tool, "ok": ok})
             if not ok:
                 key = {"set": run_id, "backend": backend, "tool": tool, "what": "generated file does not build on its own",
@@ -91,10 +94,14 @@ def check_outputs(rep, run_id, outs, events, wd, seed, orders=3, shape_of=None):
                     if sh:
                         key["shape"] = sh
                 rep.violation(key, {"file": f, "stderr": err})
+        return bad
     outs = {k: v for k, v in outs.items() if not k.startswith("_")}
     if "c" in outs:
         hs = [os.path.join(outs["c"], f) for f in sorted(os.listdir(outs["c"])) if f.endswith(".h")]
-        report("c", "gcc -std=c11", each_alone(hs, lambda f: ["gcc", "-std=c11", "-fsyntax-only", "-Werror=implicit-function-declaration", "-x", "c", "-I", outs["c"], f]))
+        bad = report("c", "gcc -std=c11", each_alone(hs, lambda f: ["gcc", "-std=c11", "-fsyntax-only", "-Werror=implicit-function-declaration", "-x", "c", "-I", outs["c"], f]))
+        # headers that do not build alone are reported above, one by one; the all-headers units ask the remaining question: do the
+        # headers that build alone also build together, in any order
+        hs = [h for h in hs if h not in bad]
         tus = []
         for k in range(orders):
             order = [os.path.basename(h) for h in hs]
@@ -106,8 +113,10 @@ def check_outputs(rep, run_id, outs, events, wd, seed, orders=3, shape_of=None):
     for be in ("cpp",):
         if be in outs:
             hs = [os.path.join(outs[be], f) for f in sorted(os.listdir(outs[be])) if f.endswith(".hpp")]
+            bad = set()
             for std in ("c++17", "c++20"):
-                report(be, "g++ -std=" + std, each_alone(hs, lambda f, s=std: ["g++", "-std=" + s, "-fsyntax-only", "-x", "c++", "-I", outs[be], f]))
+                bad |= report(be, "g++ -std=" + std, each_alone(hs, lambda f, s=std: ["g++", "-std=" + s, "-fsyntax-only", "-x", "c++", "-I", outs[be], f]))
+            hs = [h for h in hs if h not in bad]
             tus = []
             for k in range(orders):
                 order = [os.path.relpath(h, outs[be]) for h in hs]
